@@ -188,7 +188,15 @@ fn apply(dict: Dictionary, step: &DStep, log: &mut Vec<Value>, quiet: bool) -> R
             r.map_err(|_| ())
         }
         DStep::Map { ll, rl } => {
-            let r = dict.map_connection_ids_from_iter(ll.iter().map(|&x| x as u16), rl.iter().map(|&x| x as u16));
+            // the API takes any IntoIterator: every other call hands over iterators without an exact
+            // size (a filter, as when the ids are parsed lazily from the lines of a file)
+            static CALLS: std::sync::atomic::AtomicUsize = std::sync::atomic::AtomicUsize::new(0);
+            let lazy = CALLS.fetch_add(1, std::sync::atomic::Ordering::Relaxed) % 2 == 1;
+            let r = if lazy {
+                dict.map_connection_ids_from_iter(ll.iter().map(|&x| x as u16).filter(|_| true), rl.iter().map(|&x| x as u16).filter(|_| true))
+            } else {
+                dict.map_connection_ids_from_iter(ll.iter().map(|&x| x as u16), rl.iter().map(|&x| x as u16))
+            };
             if !quiet {
                 log.push(json!({"ev": "map", "ll": ll, "rl": rl, "ok": r.is_ok()}));
             }
